@@ -22,14 +22,26 @@ def generate(rng, tier):
     o = gen.Opts(max_modules=3, max_items=4, p_vftable=0.5, p_base=0.5, p_impl=0.4, p_enum=0.2, max_fields=3,
                  p_backend=0.1, p_extern_val=0.2, shuffle_prio=False)
     cases = std_worlds(rng, n, o, perturb=0.1)
-    # references to generated vftable types from fields (order-sensitive before the termination-test fix)
+    # references to generated vftable types from fields (order-sensitive before the termination-test fix); when the owner
+    # lives in another module the generated type is imported by name (`use other::TVftable;`)
     for i in range(n // 3):
         c = gen.world(rng, 'v%d' % i, opts=o)
-        owners = [d[2] for p, d in all_nodes(c) if tag(d) == 'def' and tag(d[3]) == 'type' and any(tag(s) == 'vftable' for s in d[3][2:])]
+        owners = {}
+        for (mp, file, m) in modules_of(c):
+            for d in m_defs(m):
+                if def_is_type(d) and any(tag(s_) == 'vftable' for s_ in type_stmts(d)):
+                    owners[def_name(d)] = mp
         fields = [(p, nd) for p, nd in all_nodes(c) if tag(nd) == 'field' and tag(nd[3]) in ('cptr', 'mptr')]
         if owners and fields:
             p, nd = rng.choice(fields)
-            c = replace_at(c, p, [nd[0], nd[1], nd[2], ty_cptr(ty_id(rng.choice(owners) + 'Vftable')), nd[4]])
+            ow = rng.choice(sorted(owners))
+            c = replace_at(c, p, [nd[0], nd[1], nd[2], ty_cptr(ty_id(ow + 'Vftable')), nd[4]])
+            # p = (4, module index, 3 (= m), 5 (= defs), …): add the import to that module when the owner is elsewhere
+            me = c[4][p[1]]
+            if tag(me) == 'module' and list(me[1][1:]) != owners[ow]:
+                m2 = list(me[3]); m2[2] = me[3][2] + [path(*(owners[ow] + [ow + 'Vftable']))]
+                me2 = list(me); me2[3] = m2
+                c = replace_at(c, (4, p[1]), me2)
         cases.append(c)
     # name clashes: a user type named like a generated vftable struct, duplicate definitions
     from .c14 import add_collision
